@@ -18,6 +18,10 @@ CLAIMS = {
             "Decides a structural necessary condition on ALL paths of ALL allocation entry points: per successful path exactly one atom / one heap contribution / one pair, none on failing paths; restore field coverage; reporters. Not the arithmetic of sizes.",
             "Trusts rustc's MIR and the effect recogniser (Vec method names, ghost counter field names resolved by type); bulk append loop tied to the checked size by C13. Known finding: new_substr small-integer slice counted on the heap.",
             "DESIGN.md 4/C12"),
+    "C29": ("error-discipline rule over every io::Write call site reachable from the *_limit entry points (resolved callees, closure bodies, From impl summary) + linear normalisation of the limiter test + routing of the Ok value",
+            "Decides for EVERY write site in the limited serializers that a writer failure of kind OutOfMemory leaves as EvalErr::OutOfMemory, that the limiter fails iff limit < len (strict) and decrements by the written count, and that the entry points return only bytes that passed the limiter built with the caller's limit. Does not decide that the unlimited serialization is what is written (C15/C17).",
+            "Trusts rustc's MIR and callee resolution; io::Write implementations other than LimitedWriter are out of scope (Cursor<Vec<u8>> never fails).",
+            "DESIGN.md 4/C29"),
     "C13": ("dominance (must-pass-through) of growth sites by cap tests + linear normalisation of the comparison (MIR)",
             "Decides for EVERY growth of a counted resource that a tight cap test of the right kind with the right error variant dominates it (count + increment - cap > 0). All sites, all paths; not a sample.",
             "Trusts rustc's MIR, the linear normaliser, and the inductive invariant count <= cap; does not decide arithmetic overflow of the comparison operands.",
